@@ -318,8 +318,82 @@ def run_D(case):
     return {"behaviour": beh, "violations": viol, "stats": {"predicts": n}}
 
 
+LONG_ZONES = ["America/Chicago", "Australia/Sydney", "Europe/Berlin", "America/Santiago", "Australia/Lord_Howe", "Asia/Kolkata"]
+LONG_SPANS = [("autumn_to_spring", "2021-09-15", 230), ("spring_to_autumn", "2021-02-15", 300), ("two_years", "2021-01-01", 730),
+              ("mid_year_to_mid_year", "2021-07-01", 365)]
+
+
+def long_cases(tier):
+    zones = LONG_ZONES if tier == "thorough" else LONG_ZONES[:4]
+    return [{"part": "L", "zone": z, "span": s} for z in zones for s, _, _ in LONG_SPANS]
+
+
+def run_L(case):
+    """reporting spans holding SEVERAL clock changes in either order (all reporting spans): hourly and daily"""
+    import opendsm.eemeter as em
+
+    zone = case["zone"]
+    _, start, days = next(x for x in LONG_SPANS if x[0] == case["span"])
+    viol, beh, n = [], [], 0
+    idx = local_days_index(pd.Timestamp(start), days, zone)
+    temp = 50.0 + 10.0 * np.sin(np.arange(len(idx)) / 5.0)
+    obs = 1.0 + 0.1 * (np.arange(len(idx)) % 24)
+    model = hourly_model(zone)
+    for usage in (True, False):
+        key = {"family": "hourly", "span": "several_transitions", "usage": usage}
+        cols = {"observed": obs, "temperature": temp} if usage else {"temperature": temp}
+        try:
+            data = em.HourlyReportingData(pd.DataFrame(cols, index=idx), is_electricity_data=True)
+            df = data.df
+            n += 1
+            p = model.predict(data)
+        except Exception as exc:
+            viol.append({"clause": "predict_raised", "key": dict(key, exc=type(exc).__name__),
+                         "detail": f"{zone} {case['span']} ({start} + {days} d): {type(exc).__name__}: {str(exc)[:200]}"})
+            continue
+        if not p.index.equals(df.index):
+            viol.append({"clause": "index_differs", "key": key, "detail": f"{zone} {case['span']}: {len(p)} rows vs {len(df)}"})
+            continue
+        u = p.index.tz_convert("UTC")
+        if not (u.is_monotonic_increasing and u.is_unique):
+            viol.append({"clause": "not_chronological", "key": key, "detail": f"{zone} {case['span']}"})
+        bad = ~np.isfinite(p["predicted"].to_numpy(float))
+        if bad.any():
+            viol.append({"clause": "non_finite_hourly_prediction", "key": key,
+                         "detail": f"{zone} {case['span']}: {int(bad.sum())} rows, first {p.index[int(np.flatnonzero(bad)[0])]}"})
+        beh.append(len(p))
+    # daily: a model split by season and one split by day type over the same span, and over a span lying inside ONE season
+    naive = pd.date_range(pd.Timestamp(start), periods=days, freq="D")
+    for layout in ("fw-su__fw-sh_wi", "wd-su_sh_wi__we-su_sh_wi"):
+        subs = {c: dd.submodel(dd.coeffs("hdd_tidd_cdd")) for c in layout.split("__")}
+        model_d = em.DailyModel.from_dict(dd.document(subs, dd.settings_dump("current"), tz=zone))
+        for sub_name, sel in (("whole", slice(None)), ("first_40_days", slice(0, 40))):
+            key = {"family": "daily", "span": "several_transitions" if sub_name == "whole" else "one_season", "layout": layout}
+            nv = naive[sel]
+            didx = nv.tz_localize(zone, ambiguous=True, nonexistent="shift_forward")
+            T = 40.0 + 0.2 * np.arange(len(didx)) % 50
+            try:
+                data = em.DailyReportingData(pd.DataFrame({"temperature": T}, index=didx), is_electricity_data=True)
+                df = data.df
+                n += 1
+                p = model_d.predict(data)
+            except Exception as exc:
+                viol.append({"clause": "predict_raised", "key": dict(key, exc=type(exc).__name__),
+                             "detail": f"{zone} {case['span']}/{sub_name} daily {layout}: {type(exc).__name__}: {str(exc)[:200]}"})
+                continue
+            if not p.index.equals(df.index):
+                viol.append({"clause": "index_differs", "key": key, "detail": f"{zone} {case['span']}/{sub_name}: {len(p)} rows vs {len(df)}"})
+                continue
+            got = np.isfinite(p["predicted"].to_numpy(float))
+            exp = np.isfinite(df["temperature"].to_numpy(float))
+            if not np.array_equal(got, exp):
+                viol.append({"clause": "finiteness_pattern", "key": key, "detail": f"{zone} {case['span']}/{sub_name}: {int((got != exp).sum())} rows"})
+            beh.append(int(got.sum()))
+    return {"behaviour": [case["span"], beh], "violations": viol, "stats": {"predicts": n}}
+
+
 def run_case(case):
-    return run_H(case) if case["part"] == "H" else run_D(case)
+    return {"H": run_H, "D": run_D, "L": run_L}[case["part"]](case)
 
 
 def run(tier, seed):
@@ -327,16 +401,19 @@ def run(tier, seed):
     with poolmod.Pool() as pool:
         exH = explore.explore(pool, "H hourly: zone classes x transitions", MOD, "run_case", hc, seed=seed)
         exD = explore.explore(pool, "D daily/billing: zone classes x transitions", MOD, "run_case", dc, seed=seed)
+        exL = explore.explore(pool, "L spans holding several transitions", MOD, "run_case", long_cases(tier), seed=seed, chunk=1)
     cov = explore.merge_coverage(
-        [exH, exD],
+        [exH, exD, exL],
         rule="H: one case = (zone signature class, UTC-offset transition); frames of 3 and 2 local days with the transition day in the "
         "middle / first / last, with and without usage, through HourlyReportingData and HourlyModel.predict, plus the slot-level check; "
         "D: one case = (zone class, transition of the chosen years): 10 daily rows / 70 days of billing reads around it x "
-        "{no defect, NaN temperature on / after the transition day, NaN usage} x usage present/absent",
+        "{no defect, NaN temperature on / after the transition day, NaN usage} x usage present/absent; L: one case = (zone, span of 230-730 "
+        "days holding two to four clock changes in either order): hourly predict with/without usage, daily predict with a season-split "
+        "and a day-type-split model over the span and over 40 days inside one season",
     )
     cov.update(info)
-    cov["predict_calls"] = exH.stats.get("predicts", 0) + exD.stats.get("predicts", 0)
-    return {"level": LEVEL, "coverage": cov, "violations": exH.violations + exD.violations, "assumptions": ASSUMPTIONS}
+    cov["predict_calls"] = exH.stats.get("predicts", 0) + exD.stats.get("predicts", 0) + exL.stats.get("predicts", 0)
+    return {"level": LEVEL, "coverage": cov, "violations": exH.violations + exD.violations + exL.violations, "assumptions": ASSUMPTIONS}
 
 
 def replay(rep):
